@@ -5,7 +5,7 @@ import z3
 
 from pyvc.contract import Contract
 from pyvc.engine import LoopSpec, Obj, Sym, Builtin, PyRaise, fresh, named, BOOL, INT, STR
-from pyvc import stubs, externals
+from pyvc import stubs, externals, blocks
 
 PROP = 'C08'
 LEVEL = 'proof'
@@ -261,3 +261,79 @@ generate_tasks = Contract(
     bounded='two jobs of 2 + 1 bins (symbolic coordinates)',
 )
 UNITS.append(generate_tasks)
+
+
+# ------------------------------------------------------------------------------ which contigs the region tiling is asked for
+# tag_multiome_multi_processing hands blacklisted_binning_contigs a whitelist; that function tests `contig in contig_whitelist`
+# once per contig of the header, so what it receives has to answer every such test, again and again: exactly the contigs with
+# reads that are not skipped.
+FT = 'singlecellmultiomics/universalBamTagger/bamtagmultiome.py'
+
+
+def _whitelist_block(f):
+    import ast
+    return blocks.find_nodes(f, lambda n: isinstance(n, ast.If) and "molecule_iterator_args.get('contig'" in ast.unparse(n.test)
+                             and any(isinstance(x, ast.Name) and x.id == 'contig_whitelist' for x in ast.walk(n)))[:1]
+
+
+def whitelist_setup(eng):
+    eng.spec_env['WITH_READS'] = ['chrEmptyFirst', 'chr1', 'chr2', 'chr3']
+    eng.loader.call_hooks['singlecellmultiomics.bamProcessing.bamFunctions.get_contigs_with_reads'] = \
+        lambda e, f, a, k, n: list(e.spec_env['WITH_READS'])
+
+
+whitelist = Contract(
+    PROP, FT + '::tag_multiome_multi_processing', name='tag_multiome_multi_processing[contig whitelist of the region tiling]',
+    block=_whitelist_block,
+    params={'molecule_iterator_args': ('const', {}), 'input_bam_path': ('const', 'in.bam'), 'contig_blacklist': ('const', [])},
+    cases=[{}, {'contig_blacklist': ('const', ['chr2'])}, {'molecule_iterator_args': ('const', {'contig': 'chr3'})}],
+    setup=whitelist_setup,
+    ensures={
+        # asked in header order, twice each (the callee asks once per header contig; a second tiling asks again)
+        'answers_every_membership_test_for_the_contigs_to_tile':
+            'all(((c in contig_whitelist) == WANTED(c)) and ((c in contig_whitelist) == WANTED(c)) '
+            'for c in ["chrEmptyFirst", "chr1", "chr2", "chr3", "chrNoReads"])',
+    },
+    raises={},
+    bounded='four contigs with reads, one without; no skip list / one skipped contig / a single requested contig',
+    assumptions=['get_contigs_with_reads through its own contract (C05): the contigs with reads, in header order'],
+)
+
+
+def _whitelist_pre(eng, fr):
+    from pyvc.engine import Builtin
+    args, bl = fr.env['molecule_iterator_args'], fr.env['contig_blacklist']
+    want = [args['contig']] if args.get('contig') is not None else [c for c in eng.spec_env['WITH_READS'] if c not in bl]
+    eng.spec_env['WANTED'] = Builtin('WANTED', lambda e, a, k, n: a[0] in want)
+
+
+whitelist.pre_state = _whitelist_pre
+
+
+def whitelist_replay(inputs, clause):
+    """the real statements with the model's arguments; get_contigs_with_reads replaced by the list of the scenario"""
+    from pyvc.blockreplay import run_block
+    import importlib
+    mod = importlib.import_module('singlecellmultiomics.universalBamTagger.bamtagmultiome')
+    real = mod.get_contigs_with_reads
+    mod.get_contigs_with_reads = lambda *a, **k: iter(['chrEmptyFirst', 'chr1', 'chr2', 'chr3'])
+    try:
+        args, bl = dict(inputs.get('molecule_iterator_args') or {}), list(inputs.get('contig_blacklist') or [])
+        ys, final, exc = run_block(FT, 'tag_multiome_multi_processing', _whitelist_block,
+                                   {'molecule_iterator_args': args, 'input_bam_path': 'in.bam', 'contig_blacklist': bl})
+    finally:
+        mod.get_contigs_with_reads = real
+    if exc is not None:
+        return {'status': 'confirmed', 'observed': {'outcome': 'raise', 'value': [type(exc).__name__, str(exc)]}, 'failed': [{'clause': clause}]}
+    wl = final.get('contig_whitelist')
+    want = [args['contig']] if args.get('contig') is not None else [c for c in ['chrEmptyFirst', 'chr1', 'chr2', 'chr3'] if c not in bl]
+    asked = ['chrEmptyFirst', 'chr1', 'chr2', 'chr3', 'chrNoReads'] * 2
+    got = [c in wl for c in asked]
+    obs = {'outcome': 'return', 'value': {'type': type(wl).__name__, 'asked': asked, 'answers': got, 'expected': [c in want for c in asked]}}
+    if got != [c in want for c in asked]:
+        return {'status': 'confirmed', 'observed': obs, 'failed': [{'clause': clause}]}
+    return {'status': 'not-reproduced', 'observed': obs}
+
+
+whitelist.replay = whitelist_replay
+UNITS.append(whitelist)
